@@ -1,5 +1,6 @@
 import Mutagen.Proofs.Reconcile
 import Mutagen.Proofs.Fixpoint6
+import Mutagen.Proofs.EndpointValid
 /-!
 # C04 — a fully applied cycle is a fixpoint and two-way endpoints converge
 
@@ -94,9 +95,18 @@ theorem twoWay_converges (mode : Mode) (hm : mode = .twoWaySafe ∨ mode = .twoW
   obtain ⟨c, hc, hroot⟩ := List.mem_map.mp this
   exact hq c hc (by rw [hroot]; simpa using hpre)
 
-/-- In the form "the synchronizable entries coincide": where the resulting
-endpoint trees are valid, the entries of their synchronizable parts at such a
-path equal the new ancestor's. -/
+/-- **Exact application of a plan preserves endpoint validity** (every mode, any
+ancestor): for valid phantom-free endpoint trees, the trees obtained by applying
+the planned alpha (beta) changes exactly are again valid and phantom-free. -/
+theorem plan_application_preserves_validity (mode : Mode) (A alpha beta : Option Entry)
+    (hal : Valid alpha) (hbe : Valid beta) (hpα : onoPhantom alpha = true) (hpβ : onoPhantom beta = true) :
+    (∀ α', apply alpha (Reconcile A alpha beta mode).alpha = .ok α' → Valid α' ∧ onoPhantom α' = true) ∧
+    (∀ β', apply beta (Reconcile A alpha beta mode).beta = .ok β' → Valid β' ∧ onoPhantom β' = true) :=
+  plan_application_valid mode A alpha beta hal hbe hpα hpβ
+
+/-- In the form "the synchronizable entries coincide": at every such path the
+entries of the synchronizable parts of both resulting endpoint trees equal the
+new ancestor's entry. -/
 theorem twoWay_converges_sync (mode : Mode) (hm : mode = .twoWaySafe ∨ mode = .twoWayResolved)
     (A alpha beta : Option Entry)
     (hal : Valid alpha) (hbe : Valid beta) (hpα : onoPhantom alpha = true) (hpβ : onoPhantom beta = true)
@@ -105,14 +115,14 @@ theorem twoWay_converges_sync (mode : Mode) (hm : mode = .twoWaySafe ∨ mode = 
         ((Reconcile A alpha beta mode).alpha.map idealResult ++
           (Reconcile A alpha beta mode).beta.map idealResult)) = .ok A')
     (hα : apply alpha (Reconcile A alpha beta mode).alpha = .ok α')
-    (hβ : apply beta (Reconcile A alpha beta mode).beta = .ok β')
-    (hvα : Valid α') (hvβ : Valid β') :
+    (hβ : apply beta (Reconcile A alpha beta mode).beta = .ok β') :
     ∀ q, (∀ c ∈ (Reconcile A alpha beta mode).conflicts, ¬ c.root <+: q) →
       NoUnsyncAlong α' q → NoUnsyncAlong β' q →
       pget (osync α') q = pget A' q ∧ pget (osync β') q = pget A' q := by
   intro q hq hnα hnβ
   obtain ⟨e1, e2⟩ := twoWay_converges mode hm A alpha beta hal hbe hpα hpβ A' α' β' hA hα hβ q hq hnα hnβ
-  exact ⟨(pget_osync_of_noUnsync hvα hnα).trans e1, (pget_osync_of_noUnsync hvβ hnβ).trans e2⟩
+  have hv := plan_application_valid mode A alpha beta hal hbe hpα hpβ
+  exact ⟨(pget_osync_of_noUnsync (hv.1 α' hα).1 hnα).trans e1, (pget_osync_of_noUnsync (hv.2 β' hβ).1 hnβ).trans e2⟩
 
 /-- **The converged state is a fixpoint** (every mode): when both endpoints
 hold exactly the last-synchronized, fully synchronizable tree, reconciliation
